@@ -41,6 +41,44 @@ def the_match(loop):
     return ms[0]
 
 
+def skip_and_new_index(loop, m):
+    """The inactive-op skip path and the variable holding the op's new index.
+    Accepted idioms:
+      if workspace.active(index).is_none() { SKIP }  ...  let N = workspace.active(index).unwrap();
+      let Some(N) = workspace.active(index) else { SKIP };
+    -> (skip block, N, node) ; raises AnchorLost when neither is found exactly once"""
+    found = []
+    for s in loop["body"]["stmts"]:
+        if s.get("k") == "Let" and s.get("else") is not None:
+            init = A.strip(s.get("init") or {})
+            segs, subs = A.pat_variant(s["pat"]) if s["pat"].get("k") == "PTupleStruct" else (None, None)
+            if segs and segs[-1] == "Some" and init.get("k") == "MethodCall" and init["method"] == "active":
+                blk = s["else"]
+                found.append((blk, A.binding_name(subs[0]), s))
+    ifs = [
+        i
+        for i in A.find(loop["body"], "If")
+        if "active" in A.unparse(i["cond"]) and "is_none" in A.unparse(i["cond"]) and not _inside(m, i)
+    ]
+    for i in ifs:
+        name = None
+        for s in loop["body"]["stmts"]:
+            if s.get("k") == "Let" and not s.get("else"):
+                t = A.unparse(s.get("init") or {}).replace(" ", "")
+                if ".active(" in t and t.endswith(".unwrap()"):
+                    name = A.binding_name(s["pat"])
+        found.append((i["then"], name, i))
+    if len(found) != 1 or found[0][1] is None:
+        raise A.AnchorLost("the inactive-op skip (`if workspace.active(index).is_none() {..}` + `let n = ..unwrap()`, or `let Some(n) = workspace.active(index) else {..}`) in VmData::simplify (%d found)" % len(found))
+    return found[0]
+
+
+def new_index_name(root=None):
+    fn = simplify_fn(root)
+    loop = main_loop(fn)
+    return skip_and_new_index(loop, the_match(loop))[1]
+
+
 def r1_choice_consumption(rule, root=None):
     fn = simplify_fn(root)
     it, _ = choice_iter_name(fn)
@@ -73,24 +111,21 @@ def r1_choice_consumption(rule, root=None):
             rule.bad("arm|%s|missing" % v, "simplify has no arm for SsaOp::%s" % v, A.where(fn, m))
     arms_next = sum(len(next_calls(arm["body"], it)) for arm in m["arms"])
     # the inactive-skip path: `if workspace.active(index).is_none() { if op.has_choice() { next } continue }`
-    skip = [
-        i
-        for i in A.find(loop["body"], "If")
-        if "active" in A.unparse(i["cond"]) and "is_none" in A.unparse(i["cond"]) and not _inside(m, i)
-    ]
-    if len(skip) != 1:
-        rule.bad("skip|shape", "expected exactly one inactive-op skip `if workspace.active(index).is_none() {..}` before the match", A.where(fn, loop))
-    else:
-        sk = skip[0]
-        inner = [i for i in A.find(sk["then"], "If") if "has_choice" in A.unparse(i["cond"])]
-        n_all = len(next_calls(sk["then"], it))
+    try:
+        blk, _nn, sk = skip_and_new_index(loop, m)
+    except A.AnchorLost:
+        blk = None
+        rule.bad("skip|shape", "expected exactly one inactive-op skip `if workspace.active(index).is_none() {..}` (or `let Some(n) = workspace.active(index) else {..}`) before the match", A.where(fn, loop))
+    if blk is not None:
+        inner = [i for i in A.find(blk, "If") if "has_choice" in A.unparse(i["cond"])]
+        n_all = len(next_calls(blk, it))
         ok = (
             len(inner) == 1
             and A.ftxt(A.strip(inner[0]["cond"])) == "op.has_choice()"
             and len(next_calls(inner[0]["then"], it)) == 1
             and n_all == 1
             and inner[0].get("else") is None
-            and any(A.strip(A.stmt_expr(s) or {}).get("k") == "Continue" for s in sk["then"]["stmts"])
+            and any(A.strip(A.stmt_expr(s) or {}).get("k") == "Continue" for s in A.stmts_of(blk))
         )
         if ok:
             rule.ok("inactive op: consumes one choice iff op.has_choice(), then continues", file=DATA, line=sk["ln"])
@@ -183,7 +218,7 @@ def r2_left_right(rule, root=None):
         else:
             rule.ok("%s: Right -> %s" % (lab, b_n), file=DATA, line=cases["Right"]["ln"])
         b = cases["Both"]["body"]
-        probs = _remap_problems(b, idx_n, [a_n] if b_is_imm else [a_n, b_n])
+        probs = _remap_problems(b, idx_n, [a_n] if b_is_imm else [a_n, b_n], new_index_name(root))
         txt = A.ftxt(b)
         if "(choice_count+=1)" not in txt:
             probs.append("does not count the surviving choice (`choice_count += 1`)")
@@ -199,7 +234,7 @@ def r2_left_right(rule, root=None):
             rule.ok("%s: Unknown diverges" % lab)
 
 
-def _remap_problems(body, idx_n, regs):
+def _remap_problems(body, idx_n, regs, new_n="new_index"):
     """`*index = new_index; *r = workspace.get_or_insert_active(*r);` for every register operand"""
     probs = []
     assigns = {}
@@ -208,8 +243,8 @@ def _remap_problems(body, idx_n, regs):
         nm = A.ident(l)
         if nm:
             assigns.setdefault(nm, []).append(A.strip(a["right"]))
-    if idx_n not in assigns or [A.ident(x) for x in assigns[idx_n]] != ["new_index"]:
-        probs.append("output `%s` is not renamed to new_index" % idx_n)
+    if idx_n not in assigns or [A.ident(x) for x in assigns[idx_n]] != [new_n]:
+        probs.append("output `%s` is not renamed to the new index `%s`" % (idx_n, new_n))
     for r in regs:
         rhs = assigns.get(r, [])
         ok = (
@@ -233,6 +268,7 @@ def r_renaming(rule, root=None):
     m = the_match(loop)
     ssa = dict(O.ssa_variants(root))
     has_choice = _has_choice(root)
+    new_n = skip_and_new_index(loop, m)[1]
     for variant, subs, arm in O.arms_by_variant(m, "SsaOp"):
         if variant is None or variant in has_choice or variant in ("Output", "CopyReg"):
             continue
@@ -251,7 +287,7 @@ def r_renaming(rule, root=None):
         if bad or not names or names[0] is None:
             rule.bad("%s|pattern" % variant, "arm for SsaOp::%s does not bind its output and register operands" % variant, A.where(fn, arm))
             continue
-        probs = _remap_problems(arm["body"], names[0], regs)
+        probs = _remap_problems(arm["body"], names[0], regs, new_n)
         if probs:
             for p in probs:
                 rule.bad("%s|%s" % (variant, p[:40]), "SsaOp::%s: %s" % (variant, p), A.where(fn, arm))
@@ -302,9 +338,9 @@ def r_renaming(rule, root=None):
                     st = A.ftxt(some[0]["body"])
                     nt = A.ftxt(none["body"])
                     ok = (
-                        "*%s=new_index" % names[0] in st
+                        "*%s=%s" % (names[0], new_n) in st
                         and "*%s=%s" % (names[1], some[1]) in st
-                        and "workspace.set_active(*%s,new_index)" % names[1] in nt
+                        and "workspace.set_active(*%s,%s)" % (names[1], new_n) in nt
                         and "continue" in nt
                     )
         if ok:
